@@ -4,6 +4,8 @@ import (
 	"fmt"
 	"sort"
 	"strings"
+	"sync"
+	"time"
 
 	"github.com/simpleiot/simpleiot/data"
 
@@ -170,7 +172,7 @@ func keysOf(m map[string]bool) []string {
 func runC06(tier string, _ []string) int {
 	c := vlib.NewCtx("C06", tier, "exploration")
 	vlib.SetPortBlock(6)
-	c.SetRule("per case a fresh instance and a graph of one generator class (chain, wide, mirror, diamond, tombstoned edge in the middle, node under two parents one of which is deleted, deleted then undeleted, random history); then every node (incl. the root and one detached node that has points but no edge) is written once with an acknowledged node batch and every placement once with an edge batch (newer than what is stored); an up.> subscription on the writer's connection is drained at the reply barrier and compared with the model: {node} + ancestors through live edges (node points) / through any edges (edge points) + the root sentinel, payload equal to the points sent. distinct = (shape, node|edge, size of expected set, duplicates seen)")
+	c.SetRule("per case a fresh instance and a graph of one generator class (chain, wide, mirror, diamond, tombstoned edge in the middle, node under two parents one of which is deleted, deleted then undeleted, random history); then every node (incl. the root and one detached node that has points but no edge) is written once with an acknowledged node batch and every placement once with an edge batch (newer than what is stored); an up.> subscription on the writer's connection is drained at the reply barrier and compared with the model: {node} + ancestors through live edges (node points) / through any edges (edge points) + the root sentinel, payload equal to the points sent. In every third case a concurrent phase follows: an edge is deleted / undeleted 3-8 times while a second connection writes back to back to a node below it; at rest afterwards, writes below the edge must be announced exactly according to the final graph. distinct = (shape, node|edge, size of expected set, duplicates seen)")
 	c.Assume("the store publishes rebroadcasts before the reply on one connection and NATS keeps per-publisher order to a subscriber connection (barrier, DESIGN C05)")
 	nGraphs := c.N(160, 1600)
 	vlib.Parallel(nGraphs, 6, func(i int) {
@@ -262,6 +264,106 @@ func runC06(tier string, _ []string) int {
 			}
 			c.Distinct(fmt.Sprintf("%s edge want=%d dups=%v tomb=%v", shape, len(want), len(msgs) > len(want), pts[0].Type == data.PointTypeTombstone))
 			c.Count("rebroadcasts_observed", int64(len(msgs)))
+		}
+		// ---- concurrent phase: the ancestor set of a node changes (edge deleted / undeleted / mirrored)
+		// while another connection writes to a node below it back to back; afterwards, at rest, a
+		// write below must be announced according to the final graph
+		if i%3 == 0 {
+			var cands [][2]string
+			for _, k := range d.g.EdgeKeys() {
+				if k[1] != in.RootID && k[0] != "root" {
+					cands = append(cands, k)
+				}
+			}
+			if len(cands) > 0 {
+				ek := cands[r.Intn(len(cands))]
+				par, n := ek[0], ek[1]
+				// a node at or below n
+				below := n
+				for hop := 0; hop < 6; hop++ {
+					kids := d.g.Children(below, false)
+					if len(kids) == 0 {
+						break
+					}
+					below = kids[r.Intn(len(kids))]
+				}
+				nc2, err := in.Connect()
+				if err != nil {
+					c.Inconclusive(err.Error())
+					return
+				}
+				stop := make(chan struct{})
+				var wg sync.WaitGroup
+				var wErr error
+				base := d.now().UnixNano() + int64(time.Hour)
+				wrote := 0
+				wg.Add(1)
+				go func() {
+					defer wg.Done()
+					for k := 0; ; k++ {
+						select {
+						case <-stop:
+							return
+						default:
+						}
+						e, err := vlib.SendAck(nc2, vlib.NodeSubj(below), data.Points{{Type: "busy", Time: time.Unix(0, base+int64(k)), Value: float64(k), Origin: "writer"}})
+						if err != nil || e != "" {
+							wErr = fmt.Errorf("concurrent writer: %v %s", err, e)
+							return
+						}
+						wrote++
+					}
+				}()
+				toggles := 3 + r.Intn(6)
+				var tErr error
+				for t := 0; t < toggles && tErr == nil; t++ {
+					v := 1.0
+					if d.g.Deleted(par, n) {
+						v = 0
+					}
+					e, err := d.sendEdge(n, par, data.Points{{Type: data.PointTypeTombstone, Time: d.now(), Value: v, Origin: "user-y"}})
+					if err != nil || e != "" {
+						tErr = fmt.Errorf("edge toggle: %v %s", err, e)
+					}
+					time.Sleep(time.Duration(r.Intn(1500)) * time.Microsecond)
+				}
+				close(stop)
+				wg.Wait()
+				nc2.Close()
+				if tErr != nil || wErr != nil {
+					c.Violate("store:legal-write-refused", fmt.Sprint(tErr, wErr), wit(nil))
+					return
+				}
+				// barrier: everything the writer caused has been published before this reply
+				if e, err := d.sendNode(detached, d.somePoints(1)); err != nil || e != "" {
+					c.Violate("store:legal-write-refused", fmt.Sprint(err, e), wit(nil))
+					return
+				}
+				tap.Drain()
+				for _, target := range []string{below, n} {
+					pts := data.Points{{Type: "after", Time: time.Unix(0, base+int64(time.Hour)+d.now().UnixNano()%1e9), Value: 1, Origin: "user-z"}}
+					e, err := d.sendNode(target, pts)
+					c.Eval(1)
+					if err != nil || e != "" {
+						c.Violate("store:legal-write-refused", fmt.Sprintf("node write: %v %s", err, e), wit(nil))
+						return
+					}
+					msgs := tap.Drain()
+					want := d.g.Ancestors(target, false)
+					want[target] = true
+					if sig, what := checkRebroadcast(msgs, target, "", false, want, pts); sig != "" {
+						var subs []string
+						for _, m := range msgs {
+							subs = append(subs, m.Subject)
+						}
+						c.Violate(sig+":after-concurrent-edge-changes", what, wit(map[string]any{"written": target, "subjects": subs, "toggled_edge": ek, "toggles": toggles, "concurrent_writes": wrote, "deleted_now": d.g.Deleted(par, n)}))
+						return
+					}
+					c.Count("checked_after_concurrent_edge_changes", 1)
+				}
+				c.Count("concurrent_writes_during_edge_changes", int64(wrote))
+				c.Distinct(fmt.Sprintf("%s concurrent toggles~%d final-deleted=%v", shape, toggles/3*3, d.g.Deleted(par, n)))
+			}
 		}
 		if i < 3 {
 			c.Sample(map[string]any{"shape": shape, "edges": d.g.EdgeKeys()})
